@@ -203,7 +203,7 @@ func c13Culprit() string {
 	if c13QueryCulprit == "" {
 		return ""
 	}
-	return " [query: " + c13QueryCulprit + "]"
+	return " [" + c13QueryCulprit + "]"
 }
 
 func c13IsRead(kind string) bool {
@@ -533,6 +533,31 @@ var c13Queries = func() []string {
 	return qs
 }()
 
+type c13StockFilter struct {
+	name string
+	fn   func() gedcom.FilterFunction
+}
+
+func c13StockFilters() []c13StockFilter {
+	return []c13StockFilter{
+		{name: "RemoveDuplicateNamesFilter()", fn: gedcom.RemoveDuplicateNamesFilter},
+		{name: "OfficialTagFilter()", fn: gedcom.OfficialTagFilter},
+		{name: "SimpleNameFilter(NameFormatWritten)", fn: func() gedcom.FilterFunction { return gedcom.SimpleNameFilter(gedcom.NameFormatWritten) }},
+		{name: "SimpleNameFilter(NameFormatIndex)", fn: func() gedcom.FilterFunction { return gedcom.SimpleNameFilter(gedcom.NameFormatIndex) }},
+		{name: "OnlyVitalsTagFilter()", fn: gedcom.OnlyVitalsTagFilter},
+		{name: "RemoveEmptyDeathTagFilter()", fn: gedcom.RemoveEmptyDeathTagFilter},
+		{name: "WhitelistTagFilter(INDI, NAME, BIRT, DATE)", fn: func() gedcom.FilterFunction {
+			return gedcom.WhitelistTagFilter(gedcom.TagIndividual, gedcom.TagName, gedcom.TagBirth, gedcom.TagDate)
+		}},
+		{name: "BlacklistTagFilter(NAME, SEX, NOTE)", fn: func() gedcom.FilterFunction {
+			return gedcom.BlacklistTagFilter(gedcom.TagName, gedcom.TagSex, gedcom.TagNote)
+		}},
+	}
+}
+
+// c13FilterStart is the tree digest of the live document when the Filter read began.
+var c13FilterStart string
+
 // c13SideEffect is set by a read that changed a document *other* than the one under test (the second
 // operand of a diff); the caller reports it.
 var c13SideEffect string
@@ -639,6 +664,9 @@ func c13DiffRead(doc *gedcom.Document) (effect string) {
 // blackBox performs one of the read-only operations the property names.
 func (d *c13Doc) blackBox(sub string) {
 	doc := d.doc
+	if sub == "Filter" {
+		c13FilterStart = c13Digest(doc)
+	}
 	switch sub {
 	case "Warnings":
 		_ = doc.Warnings()
@@ -665,10 +693,29 @@ func (d *c13Doc) blackBox(sub string) {
 			d.other.AddNode(gedcom.DeepCopy(n, d.other))
 		}
 	case "Filter":
-		for _, n := range doc.Nodes() {
-			if c := gedcom.Filter(n, d.other, gedcom.OfficialTagFilter()); c != nil {
-				d.other.AddNode(c)
+		// every stock filter applied DIRECTLY to the live records (copying out into another document),
+		// and FilterFlags.Filter with every flag on
+		for _, f := range c13StockFilters() {
+			for _, n := range doc.Nodes() {
+				func() {
+					defer func() { recover() }() // a filter that fails on a record is not judged here; purity is
+					if c := gedcom.Filter(n, d.other, f.fn()); c != nil {
+						d.other.AddNode(c)
+					}
+				}()
+				if c13QueryCulprit == "" && c13Digest(doc) != c13FilterStart {
+					c13QueryCulprit = "gedcom.Filter(record, otherDocument, " + f.name + ")"
+				}
 			}
+		}
+		ff := &gedcom.FilterFlags{NoEvents: true, NoResidences: true, NoPlaces: true, NoSources: true, NoMaps: true,
+			NoChanges: true, NoObjects: true, NoLabels: true, NoCensuses: true, NoEmptyDeaths: true,
+			NoDuplicateNames: true, OnlyVitals: true, OnlyOfficial: true, NameFormat: "written"}
+		for _, n := range doc.Nodes() {
+			func() {
+				defer func() { recover() }()
+				_ = ff.Filter(n, d.other)
+			}()
 		}
 	case "Query":
 		state := func() string { return c13Digest(doc) + c13View(doc, "fams", nil, "") }
@@ -682,7 +729,7 @@ func (d *c13Doc) blackBox(sub string) {
 			}()
 			if c13QueryCulprit == "" {
 				if now := state(); now != before {
-					c13QueryCulprit = src // the caller's before/after comparison reports the change itself
+					c13QueryCulprit = "query: " + src // the caller's before/after comparison reports the change itself
 				}
 			}
 		}
@@ -1114,9 +1161,15 @@ func c13Graph(r *Rand, nI, nF int) string {
 	b.WriteString("0 HEAD\n1 CHAR UTF-8\n")
 	for i := 1; i <= nI; i++ {
 		fmt.Fprintf(&b, "0 @I%d@ INDI\n", i)
+		first := ""
 		for k := r.Intn(3); k > 0; k-- {
-			fmt.Fprintf(&b, "1 NAME %s\n", r.Pick(c13Names))
+			nm := r.Pick(c13Names)
+			if first == "" {
+				first = nm
+			}
+			fmt.Fprintf(&b, "1 NAME %s\n", nm)
 		}
+		repeat := first != "" && r.Chance(1, 3) // the same name again, after other children
 		if r.Chance(1, 2) {
 			fmt.Fprintf(&b, "1 SEX %s\n", r.Pick([]string{"M", "F"}))
 		}
@@ -1128,6 +1181,9 @@ func c13Graph(r *Rand, nI, nF int) string {
 			for k := r.Intn(3); k > 0; k-- {
 				fmt.Fprintf(&b, "2 DATE %s\n", r.Pick(c13Years))
 			}
+		}
+		if repeat {
+			fmt.Fprintf(&b, "1 NAME %s\n", first)
 		}
 		if r.Chance(1, 3) {
 			fmt.Fprintf(&b, "1 DEAT\n2 DATE %s\n", r.Pick(c13Years))
@@ -1426,6 +1482,9 @@ var c13DirectedDangling = [][]c13Op{
 	{{Kind: "ai", Ptr: "I8"}},
 	{{Kind: "ai", Ptr: "I9"}, {Kind: "dd", A: 2}},
 }
+
+// an individual whose first name is repeated between other children, and an empty death
+const c13RepeatedNamesDoc = "0 @I1@ INDI\n1 NAME John /Smith/\n1 SEX M\n1 NAME John /Smith/\n1 BIRT\n2 DATE 1850\n1 NAME Jon /Smith/\n1 DEAT\n1 NOTE n\n0 @F1@ FAM\n1 HUSB @I1@\n"
 
 // an individual with a unique id (roots: 0 I1)
 const c13UIDDoc = "0 @I1@ INDI\n1 NAME John /Smith/\n1 _UID 11111111-2222-3333-4444-555555555555\n"
@@ -1856,14 +1915,17 @@ func init() {
 			}
 			r.finish()
 		}
-		// every read-only operation once on the small document (smallest witnesses for impure reads)
-		for _, rd := range c13AllReads() {
-			r, err := c13NewRunner(c, c13SmallDoc)
-			if err != nil {
-				panic(err)
+		// every read-only operation once on the small document and on one whose individual repeats a
+		// name between other children (smallest witnesses for impure reads)
+		for _, text := range []string{c13SmallDoc, c13RepeatedNamesDoc} {
+			for _, rd := range c13AllReads() {
+				r, err := c13NewRunner(c, text)
+				if err != nil {
+					panic(err)
+				}
+				r.do(rd)
+				r.finish()
 			}
-			r.do(rd)
-			r.finish()
 		}
 		for _, hist := range c13DirectedUID {
 			r, err := c13NewRunner(c, c13UIDDoc)
